@@ -228,14 +228,17 @@ theorem tryCapture_id (v : V) (c : Cap) (h : tryCapture v = some c) : IdByDispla
 theorem display_tid_id (v : V) (t : String) (h : v.display? = some t) : IdByDisplay (.display t v.tid) := by
   cases v <;> simp [V.display?] at h <;> (try subst h) <;> simp [V.tid, IdByDisplay]
 
-theorem toValue_id (v : V) (c : Cap) (h : toValue? v = some c) : IdByDisplay c := by
-  cases v with
-  | optSome v' =>
-    cases v' <;> simp [toValue?] at h <;> (try subst h) <;> (try simp [IdByDisplay]) <;>
-      exact primLeaf_id _ c h
-  | f32 _ _ | char _ _ => simp [toValue?] at h
-  | optNone _ | level _ | traceId _ | spanId _ => simp [toValue?] at h; subst h; simp [IdByDisplay]
-  | _ => exact primLeaf_id _ c (by simpa [toValue?] using h)
-
+theorem toValue_id : ∀ (v : V) (c : Cap), toValue? v = some c → IdByDisplay c
+  | .optSome v', c, h => toValue_id v' c (by simpa [toValue?] using h)
+  | .f32 _ _, _, h | .char _ _, _, h => by simp [toValue?] at h
+  | .optNone _, c, h | .level _, c, h | .traceId _, c, h | .spanId _, c, h => by
+    simp [toValue?] at h; subst h; simp [IdByDisplay]
+  | .bool b, c, h => primLeaf_id (.bool b) c (by simpa [toValue?] using h)
+  | .int t i, c, h => primLeaf_id (.int t i) c (by simpa [toValue?] using h)
+  | .f64 x, c, h => primLeaf_id (.f64 x) c (by simpa [toValue?] using h)
+  | .str o s d, c, h => primLeaf_id (.str o s d) c (by simpa [toValue?] using h)
+  | .unit, _, h | .seq _, _, h | .map _, _, h | .tuple _, _, h | .record _ _, _, h | .tstruct _ _, _, h
+  | .ustruct _, _, h | .uvar _, _, h | .nvar _ _, _, h | .tvar _ _, _, h | .svar _ _, _, h | .err _ _, _, h
+  | .fmtOnly _ _, _, h => by simp [toValue?, primLeaf?] at h
 
 end EmitModel.C19
